@@ -1,7 +1,41 @@
-(* family 6: stub, to be filled *)
+(* family 6: PUS telemetry and the service-17 wrapper *)
 From Coq Require Import ZArith List Bool.
-From SP Require Import Base.Result Base.Bytes Run.Marshal.
+From SP Require Import Base.Result Base.Bytes Base.Crc16 Run.Marshal Run.DispSph Model.SpacePacket Model.PusTc Model.PusTm Spec.PusSpec.
 Import ListNotations.
 Open Scope Z_scope.
 
-Definition run_tm (op : Z) (a : args) : args := [[1; 97]].
+Definition tmsec_fields (s : tmsec) : list Z :=
+  [tms_version s; tms_ref s; tms_service s; tms_subservice s; tms_msgcnt s; tms_dest s].
+Definition tm_fields (t : tm) : args :=
+  [ sph_fields (tm_sph t); tmsec_fields (tm_sec t); tms_stamp (tm_sec t);
+    tm_src t; of_opt_bytes (tm_crc t); [tm_packet_len t] ].
+
+(* args: [service; subservice; apid; seq; msgcnt; ref; dest; version] [timestamp] [source] *)
+Definition tm_of_args (a : args) : res tm :=
+  tm_new (int 0 0 a) (int 0 1 a) (lst 1 a) (lst 2 a) (int 0 2 a) (int 0 3 a) (int 0 4 a)
+         (int 0 5 a) (int 0 6 a) (int 0 7 a).
+(* args: [apid; subservice; ssc; version; ref; dest] [timestamp] [source] *)
+Definition s17_of_args (a : args) : res tm :=
+  srv17_new (int 0 0 a) (int 0 1 a) (lst 1 a) (int 0 2 a) (lst 2 a) (int 0 3 a) (int 0 4 a) (int 0 5 a).
+
+Definition run_tm (op : Z) (a : args) : args :=
+  match op with
+  | 600 => ret tm_fields (tm_of_args a)
+  | 601 => ret (fun r => [fst r; [tm_packet_len (snd r)]]) (do t <- tm_of_args a; tm_pack t)
+  | 602 => ret tm_fields (tm_unpack (lst 0 a) (int 1 0 a))
+  | 603 => ret (fun r => [fst r]) (do t <- tm_unpack (lst 0 a) (int 1 0 a); tm_pack t)
+  | 604 => ret (fun b => [b]) (do t <- tm_of_args a; tm_to_space_packet_pack t)
+  | 605 => ret (fun r => [[b2z (fst r)]] ++ tm_fields (snd r))
+             (do t <- tm_of_args a; do p <- tm_pack t;
+              do u <- tm_unpack (fst p) (len (lst 1 a));
+              Ok (tm_eqb u t && tm_eqb t u, u))
+  | 607 => ret (fun r => [fst r; [tm_packet_len (snd r)]])
+             (do t <- tm_of_args a; tm_pack (tm_set_tm_data t (lst 3 a)))
+  | 608 => ret (fun s => [tmsec_fields s; tms_stamp s]) (tmsec_unpack (lst 0 a) (int 1 0 a))
+  | 609 => ret (fun r => [[r]]) (tm_service_from_bytes (lst 0 a))
+  | 610 => ret (fun r => [fst r; [tm_packet_len (snd r)]]) (do t <- s17_of_args a; srv17_pack t)
+  | 611 => ret tm_fields (srv17_unpack (lst 0 a) (int 1 0 a))
+  | 650 => [[0]; tm_layout (int 0 0 a) (int 0 1 a) (int 0 2 a) (int 0 3 a) (int 0 4 a)
+                           (int 0 5 a) (int 0 6 a) (int 0 7 a) (lst 1 a) (lst 2 a)]
+  | _ => [[1; 97]]
+  end.
